@@ -11,6 +11,7 @@ import (
 	"github.com/nspcc-dev/neo-go/pkg/neotest"
 	"github.com/nspcc-dev/neo-go/pkg/util"
 	"github.com/nspcc-dev/neo-go/pkg/vm/stackitem"
+	"github.com/nspcc-dev/neo-go/pkg/wallet"
 	"github.com/stretchr/testify/require"
 )
 
@@ -22,7 +23,10 @@ type balEnv struct {
 	*Env
 	nns, netmap, balance, caller util.Uint160
 	users                        []neotest.Signer
-	committee                    neotest.Signer
+	committee                    neotest.Signer // the Alphabet account (2n/3+1 of n)
+	majority                     neotest.Signer // the committee-majority account (n/2+1 of n); = Alphabet for n in {1,2,4}
+	member                       neotest.Signer // one committee member alone
+	n                            int
 	addrs                        [][]byte // pool of addresses (observed after every op)
 	epoch                        int64
 }
@@ -35,7 +39,7 @@ type balOp struct {
 	Details []byte   `json:"details,omitempty"`
 	Until   int64    `json:"until,omitempty"`
 	Epoch   int64    `json:"epoch,omitempty"`
-	Signers []int    `json:"signers"` // indices into users; -1 = committee (Alphabet)
+	Signers []int    `json:"signers"` // indices into users; -1 = Alphabet account, -2 = committee-majority account, -3 = one committee member
 }
 
 type balObs struct {
@@ -56,11 +60,26 @@ type balNotif struct {
 	until    *big.Int
 }
 
-func newBalEnv(t testing.TB) *balEnv {
-	v := NewEnv(t)
-	b := &balEnv{Env: v}
+func newBalEnv(t testing.TB, n int) *balEnv {
+	var v *Env
+	b := &balEnv{n: n}
+	if n <= 1 {
+		v = NewEnv(t)
+		b.committee, b.majority, b.member = v.E.Committee, v.E.Committee, v.E.Committee
+	} else {
+		vn := NewEnvN(t, n)
+		v = vn.Env
+		b.committee, b.majority = vn.Alphabet, vn.Majority
+		b.member = neotest.NewSingleSigner(wallet.NewAccountFromPrivateKey(vn.Keys[0]))
+		gas := v.E.NativeHash(t, "GasToken")
+		for _, a := range []neotest.Signer{vn.Alphabet, vn.Majority, b.member} {
+			if a.ScriptHash() != v.E.Validator.ScriptHash() {
+				v.E.ValidatorInvoker(gas).Invoke(t, true, "transfer", v.E.Validator.ScriptHash(), a.ScriptHash(), int64(100000_0000_0000), nil)
+			}
+		}
+	}
+	b.Env = v
 	e := v.E
-	b.committee = e.Committee
 
 	nns := v.Compile("nns")
 	e.DeployContract(t, nns, []any{[]any{[]any{"neofs", "ops@nspcc.io"}}})
@@ -89,6 +108,9 @@ func newBalEnv(t testing.TB) *balEnv {
 		b.addrs = append(b.addrs, u.ScriptHash().BytesBE())
 	}
 	b.addrs = append(b.addrs, b.caller.BytesBE())
+	// contracts that never call Balance.transfer themselves: the Balance
+	// contract's own address and Netmap's (nobody can witness them)
+	b.addrs = append(b.addrs, b.balance.BytesBE(), b.netmap.BytesBE())
 	// lock addresses (fresh 20-byte values) and malformed addresses
 	for i := 0; i < 3; i++ {
 		a := make([]byte, 20)
@@ -103,15 +125,20 @@ func newBalEnv(t testing.TB) *balEnv {
 const (
 	balNUsers   = 3
 	balIdxCall  = 3
-	balIdxLock0 = 4
-	balIdxEmpty = 7
+	balIdxSelf  = 4
+	balIdxLock0 = 6
+	balIdxEmpty = 9
 )
 
 func (b *balEnv) signerList(idx []int) []neotest.Signer {
 	var out []neotest.Signer
 	for _, i := range idx {
-		if i < 0 {
+		if i == -1 {
 			out = append(out, b.committee)
+		} else if i == -2 {
+			out = append(out, b.majority)
+		} else if i == -3 {
+			out = append(out, b.member)
 		} else {
 			out = append(out, b.users[i])
 		}
@@ -189,16 +216,22 @@ func (b *balEnv) exec(op balOp) balObs {
 // witnessed returns the script hashes for which CheckWitness is true.
 func (b *balEnv) witnessed(op balOp) (hs [][]byte, alpha bool) {
 	for _, i := range op.Signers {
-		if i < 0 {
+		if i == -1 {
 			alpha = true
 			hs = append(hs, b.committee.ScriptHash().BytesBE())
+		} else if i == -2 {
+			alpha = alpha || b.majority.ScriptHash() == b.committee.ScriptHash()
+			hs = append(hs, b.majority.ScriptHash().BytesBE())
+		} else if i == -3 {
+			alpha = alpha || b.member.ScriptHash() == b.committee.ScriptHash()
+			hs = append(hs, b.member.ScriptHash().BytesBE())
 		} else {
 			hs = append(hs, b.users[i].ScriptHash().BytesBE())
 		}
 	}
 	if len(op.Signers) == 0 {
 		hs = append(hs, b.E.Validator.ScriptHash().BytesBE())
-		alpha = true // the single validator account is the committee account
+		alpha = b.E.Validator.ScriptHash() == b.committee.ScriptHash()
 	}
 	if op.Kind == "callerTransfer" {
 		hs = append(hs, b.caller.BytesBE())
@@ -316,6 +349,10 @@ func (g *balGen) funded() int {
 }
 
 func (g *balGen) alphaSigners() []int {
+	if g.b.n > 1 && g.r.Intn(4) == 0 {
+		// the committee-majority account or a single member where the Alphabet (2n/3+1) is required
+		return []int{-2 - g.r.Intn(2)}
+	}
 	if g.r.Intn(6) == 0 {
 		return []int{g.r.Intn(balNUsers)} // stranger where the Alphabet is required
 	}
@@ -330,7 +367,7 @@ func (g *balGen) next(step int) balOp {
 	det := []byte{byte(r.Intn(3) + 1), byte(step)}
 	w := r.Intn(100)
 	if step < 2 || (g.prop != "C09" && w < 18) || (g.prop == "C09" && w < 10) {
-		to := r.Intn(balIdxCall + 1)
+		to := r.Intn(balIdxLock0)
 		if r.Intn(12) == 0 {
 			to = g.anyAddr()
 		}
@@ -362,7 +399,7 @@ func (g *balGen) next(step int) balOp {
 		case f < balNUsers && r.Intn(4) != 0:
 			sg = []int{f}
 		case r.Intn(3) == 0:
-			sg = []int{-1}
+			sg = []int{-1 - r.Intn(3)}
 		default:
 			sg = []int{r.Intn(balNUsers)}
 		}
@@ -454,6 +491,29 @@ func balCorpus(b *balEnv) [][]balOp {
 			{Kind: "callerTransfer", From: b.caller.BytesBE(), To: B, Amount: n(3), Signers: []int{2}},
 			{Kind: "transfer", From: b.caller.BytesBE(), To: B, Amount: n(1), Signers: []int{2}},
 		},
+		{ // funds held at contract addresses nobody can witness (the Balance contract itself, Netmap)
+			{Kind: "mint", To: b.balance.BytesBE(), Amount: n(700), Details: []byte{1}, Signers: al},
+			{Kind: "mint", To: b.netmap.BytesBE(), Amount: n(300), Details: []byte{1}, Signers: al},
+			{Kind: "transfer", From: b.balance.BytesBE(), To: B, Amount: n(100), Signers: []int{1}},
+			{Kind: "callerTransfer", From: b.balance.BytesBE(), To: B, Amount: n(100), Signers: []int{1}},
+			{Kind: "transfer", From: b.netmap.BytesBE(), To: B, Amount: n(100), Signers: []int{1}},
+			{Kind: "transfer", From: b.balance.BytesBE(), To: B, Amount: n(100), Signers: []int{-2}},
+			{Kind: "transferX", From: b.balance.BytesBE(), To: B, Amount: n(100), Details: []byte{5}, Signers: al},
+		},
+		{ // the committee-majority account and single members are not the Alphabet (they differ for n = 3)
+			{Kind: "mint", To: A, Amount: n(1000), Details: []byte{1}, Signers: al},
+			{Kind: "mint", To: A, Amount: n(10), Details: []byte{1}, Signers: []int{-2}},
+			{Kind: "mint", To: A, Amount: n(10), Details: []byte{1}, Signers: []int{-3}},
+			{Kind: "burn", From: A, Amount: n(10), Details: []byte{2}, Signers: []int{-2}},
+			{Kind: "transferX", From: A, To: B, Amount: n(10), Details: []byte{2}, Signers: []int{-2}},
+			{Kind: "lock", From: A, To: L, Amount: n(10), Until: 3, Details: []byte{2}, Signers: []int{-2}},
+			{Kind: "lock", From: A, To: L, Amount: n(10), Until: 3, Details: []byte{2}, Signers: []int{-3}},
+			{Kind: "newEpoch", Epoch: 7, Signers: []int{-2}},
+			{Kind: "newEpochNetmap", Epoch: 1, Signers: []int{-2}},
+			{Kind: "lock", From: A, To: L, Amount: n(10), Until: 3, Details: []byte{2}, Signers: al},
+			{Kind: "newEpoch", Epoch: 3, Signers: []int{-3}},
+			{Kind: "newEpoch", Epoch: 3, Signers: al},
+		},
 	}
 }
 
@@ -514,6 +574,12 @@ func (m *balMon) step(op balOp, o balObs) {
 			ti := m.idx(op.To)
 			if len(op.From) != 20 || len(op.To) != 20 || string(op.From) == string(op.To) ||
 				m.prev.balances[ti].Sign() != 0 || m.locks[string(op.To)] != nil && !m.locks[string(op.To)].done {
+				m.premise = false
+			}
+			if l := m.locks[string(op.From)]; l != nil && !l.done {
+				// a lock made out of a pending lock account (never done by the Inner
+				// Ring; premise [nochain] of the C09 theorems): the release order of
+				// chained locks is outside the statement
 				m.premise = false
 			}
 		}
@@ -660,7 +726,7 @@ func (m *balMon) led(a []byte) *big.Int {
 
 func runBalanceFamily(t *testing.T, prop string) {
 	st := NewStats(prop)
-	st.Rule = "histories = corpus witnesses + seeded structured generation over 3 users, 1 contract, 3 lock addresses, 3 malformed addresses; " +
+	st.Rule = "histories = corpus witnesses (each on committees of 1 and 3 keys) + seeded structured generation over 3 users, 1 calling contract, 2 passive contract addresses (Balance itself, Netmap), 3 lock addresses, 3 malformed addresses, on committees of 1 key and (every third history) 3 keys with majority-only and single-member signers; " +
 		"non-trivial = history contains at least one accepted state change and at least one refusal/fault; distinct = by the canonical op/outcome string"
 	pool := NewPool("b")
 	cf := &CasesFile{Pool: pool}
@@ -671,8 +737,8 @@ func runBalanceFamily(t *testing.T, prop string) {
 	}
 	distinct := map[string]bool{}
 	var poolRefs []string
-	run := func(hidx int, ops func(b *balEnv, step int, g *balGen) (balOp, bool)) {
-		b := newBalEnv(t)
+	run := func(hidx int, ncomm int, ops func(b *balEnv, step int, g *balGen) (balOp, bool)) {
+		b := newBalEnv(t, ncomm)
 		g := &balGen{r: Rng(int64(hidx)), b: b, prop: prop}
 		mon := &balMon{b: b, st: st, prop: prop, ledger: map[string]*big.Int{}, premise: true, locks: map[string]*balLock{}}
 		zero := balObs{supply: new(big.Int)}
@@ -731,22 +797,28 @@ func runBalanceFamily(t *testing.T, prop string) {
 	}
 	// corpus first
 	{
-		b0 := newBalEnv(t)
+		b0 := newBalEnv(t, 1)
 		nc := len(balCorpus(b0))
 		for ci := 0; ci < nc; ci++ {
-			ci := ci
-			run(-1-ci, func(b *balEnv, step int, g *balGen) (balOp, bool) {
-				h := balCorpus(b)[ci]
-				if step >= len(h) {
-					return balOp{}, false
-				}
-				return h[step], true
-			})
+			for _, ncomm := range []int{1, 3} {
+				ci := ci
+				run(-1-ci, ncomm, func(b *balEnv, step int, g *balGen) (balOp, bool) {
+					h := balCorpus(b)[ci]
+					if step >= len(h) {
+						return balOp{}, false
+					}
+					return h[step], true
+				})
+			}
 		}
 	}
 	for h := 0; h < nh; h++ {
 		n := 6 + Rng(int64(h)).Intn(maxOps-5)
-		run(h, func(b *balEnv, step int, g *balGen) (balOp, bool) {
+		ncomm := 1
+		if h%3 == 2 {
+			ncomm = 3
+		}
+		run(h, ncomm, func(b *balEnv, step int, g *balGen) (balOp, bool) {
 			if step >= n {
 				return balOp{}, false
 			}
